@@ -17,7 +17,7 @@ ENTRIES = ["conelp", "coneqp", "lp", "qp", "socp", "sdp", "cpl", "cp", "gp", "op
 REQUIRED_COUNTERS = ["iso." + e for e in ENTRIES] + ["immutability-checks", "global-state-checks", "options-precedence-checks",
                                                       "validation-rejections", "budget-checks", "monotone-tolerance-checks",
                                                       "hist.calls-vs-fresh-process", "threads.runs", "threads.results-compared",
-                                                      "threads.context-switches-in-solver", "threads.homogeneous-runs", "iso.empty-options-dict"]
+                                                      "threads.context-switches-in-solver", "threads.homogeneous-runs", "iso.empty-options-dict", "refinement-checks"]
 
 
 def plan(tier):
@@ -130,6 +130,16 @@ def run(ctx):
                 self.x = variable(pr.n, "x")
                 self.args = {"G": sr.mk(pr.G), "h": sr.mk(pr.h), "A": sr.mk(pr.A), "b": sr.mk(pr.b), "c": sr.mk(pr.c)}
                 cons = [self.args["G"] * self.x <= self.args["h"]]
+                m_ = pr.G.shape[0]
+                if m_ >= 3 and rng.random() < 0.6:
+                    # the same rows as two or three separate constraint objects (their order in G is the order given)
+                    cuts = sorted(rng.sample(range(1, m_), min(2, m_ - 1)))
+                    bounds = [0] + cuts + [m_]
+                    cons = []
+                    for a_, b_ in zip(bounds, bounds[1:]):
+                        Gi = sr.mk(pr.G[a_:b_, :]); hi = sr.mk(pr.h[a_:b_])
+                        self.args["G%d" % a_] = Gi; self.args["h%d" % a_] = hi
+                        cons.append(Gi * self.x <= hi)
                 if pr.p:
                     cons.append(self.args["A"] * self.x == self.args["b"])
                 self.cons = cons
@@ -200,7 +210,7 @@ def run(ctx):
 
     # ---------------------------------------------------------------- monitor: iso
     INVALID = [("maxiters", 0), ("maxiters", -3), ("maxiters", 2.5), ("maxiters", "10"), ("abstol", "1e-7"), ("reltol", "x"),
-               ("feastol", 0.0), ("feastol", -1e-7), ("feastol", "a"), ("refinement", -1), ("refinement", 1.5),
+               ("feastol", 0.0), ("feastol", -1e-7), ("feastol", "a"), ("refinement", -1), ("refinement", 1.5), ("refinement", 0.0),
                ("kktreg", -1.0), ("kktreg", "a"), ("abstol+reltol", (0.0, 0.0)), ("abstol+reltol", (-1.0, -1e-3))]
 
     def iso(c):
@@ -276,6 +286,29 @@ def run(ctx):
                 c.require(cnt["f"] <= mi + 1, entry + ":kkt-calls-exceed-budget", "%d factorisations with maxiters %d" % (cnt["f"], mi))
                 if s["iterations"] == mi and mi < 100:
                     c.require(s["status"] in ("unknown", "optimal", "primal infeasible", "dual infeasible"), entry + ":status-value", "status %r" % s["status"])
+            except ValueError:
+                pass
+            # --- refinement honoured: KKT solves per iteration = (1 for conelp's first solve) + 2*(1 + refinement)
+            rf = rng.choice([0, 1, 2])
+            per_it = {}
+            cur = {"it": "startup"}
+            def kk_r(W):
+                it_ = sys._getframe(1).f_locals.get("iters", None)
+                cur["it"] = "startup" if it_ is None else int(it_)
+                f_ = fac(W) if entry == "conelp" else fac(W, a["P"])
+                def solve_(x, y, z):
+                    per_it[cur["it"]] = per_it.get(cur["it"], 0) + 1
+                    return f_(x, y, z)
+                return solve_
+            try:
+                s_r = call.run(options=dict(QUIET, refinement=rf), kkt=kk_r)
+                want_n = (1 if entry == "conelp" else 0) + 2 * (1 + rf)
+                full = [k_ for k_ in per_it if k_ != "startup" and isinstance(k_, int) and k_ < s_r["iterations"] - 0]
+                if s_r["status"] == "optimal" and full:
+                    ctx.count("refinement-checks")
+                    badk = [(k_, per_it[k_]) for k_ in sorted(full) if per_it[k_] != want_n]
+                    c.require(not badk, entry + ":refinement-option-not-honoured",
+                              "options refinement=%d: expected %d KKT solves per iteration, observed %r" % (rf, want_n, badk[:4]))
             except ValueError:
                 pass
             try:
